@@ -361,7 +361,8 @@ def run(ch, ctx, fault=None):
                 ctx.probe("setting_on_abstract_ancestor")
             desc = op
             if op == "cls_method":
-                val = ch.pick("mval", ("lines", "whole", None, None, "WHOLE", "anim", "bogus", 7))
+                val = ch.pick("mval", ("lines", "whole", None, None, "WHOLE", "anim", "bogus", 7,
+                                       " lines", "whole ", "\tanim"))
                 desc = "%s.set_render_method(%r)" % (n.name, val)
                 valid_set = n.accepted_methods()
                 ok = expect(lambda: n.cls.set_render_method(val), ("ValueError", "TypeError"), desc)
@@ -389,7 +390,8 @@ def run(ch, ctx, fault=None):
                 idx = ch.int("inst", 0, len(n.instances) - 1)
                 obj, own = n.instances[idx]
                 val = ch.pick("mval", ("lines", "whole", None, "anim", "bogus", "LINES", "Whole",
-                                       "ANIM", "Lines", 0, False, (), 7, ""))
+                                       "ANIM", "Lines", 0, False, (), 7, "", "lines ",
+                                       " whole", " anim "))
                 desc = "%s#%d.set_render_method(%r)" % (n.name, idx, val)
                 valid_set = n.accepted_methods()
                 ok = expect(lambda: obj.set_render_method(val), ("ValueError", "TypeError"), desc)
